@@ -262,25 +262,42 @@ func (x *Exec) floatBits(bc *blockCtx, name string, args []*Val) (*Val, bool) {
 			return &Val{Typ: rt, T: x.b.App(uf, "Real", x.asTerm(args[0]))}, true
 		}
 	}
+	// fp model: bit patterns through a pair of uninterpreted functions that are
+	// inverse to each other (so Float64bits is injective on structurally
+	// different floats; all NaNs are identified -- NaN payloads are not modelled),
+	// plus the sign-bit and zero facts.
+	wide := name == "math.Float64bits" || name == "math.Float64frombits"
+	fs, bits, to, from := "(_ FloatingPoint 11 53)", int64(64), "f64bits", "f64frombits"
+	ft := types.Type(float64T)
+	it := types.Type(types.Typ[types.Uint64])
+	if !wide {
+		fs, bits, to, from = "(_ FloatingPoint 8 24)", 32, "f32bits", "f32frombits"
+		ft = types.Typ[types.Float32]
+		it = types.Typ[types.Uint32]
+	}
+	x.declareUF(to, []string{fs}, "Int")
+	x.declareUF(from, []string{"Int"}, fs)
+	x.note("fp model: Float64bits/Float32bits are injective uninterpreted bit patterns (NaN payloads not modelled)")
+	top := new(big.Int).Lsh(big.NewInt(1), uint(bits))
+	half := new(big.Int).Lsh(big.NewInt(1), uint(bits-1))
 	switch name {
-	case "math.Float64bits":
+	case "math.Float64bits", "math.Float32bits":
 		a := x.asTerm(args[0])
-		bv := x.b.Fresh("f64bits", "(_ BitVec 64)")
-		x.assume(bc.reach, x.b.Eq(x.b.App("(_ to_fp 11 53)", a.Sort, bv), a))
-		return &Val{Typ: types.Typ[types.Uint64], T: x.b.App("bv2nat", "Int", bv)}, true
-	case "math.Float32bits":
-		a := x.asTerm(args[0])
-		bv := x.b.Fresh("f32bits", "(_ BitVec 32)")
-		x.assume(bc.reach, x.b.Eq(x.b.App("(_ to_fp 8 24)", a.Sort, bv), a))
-		return &Val{Typ: types.Typ[types.Uint32], T: x.b.App("bv2nat", "Int", bv)}, true
-	case "math.Float32frombits":
-		a := x.asTerm(args[0])
-		bv := x.b.App("(_ int2bv 32)", "(_ BitVec 32)", a)
-		return &Val{Typ: types.Typ[types.Float32], T: x.b.App("(_ to_fp 8 24)", "(_ FloatingPoint 8 24)", bv)}, true
-	case "math.Float64frombits":
-		a := x.asTerm(args[0])
-		bv := x.b.App("(_ int2bv 64)", "(_ BitVec 64)", a)
-		return &Val{Typ: float64T, T: x.b.App("(_ to_fp 11 53)", "(_ FloatingPoint 11 53)", bv)}, true
+		r := x.b.App(to, "Int", a)
+		if !a.Bound {
+			x.assume(bc.reach, x.b.And(x.b.Cmp("<=", x.b.Int(0), r), x.b.Cmp("<", r, x.b.IntBig(top)),
+				x.b.Eq(x.b.App(from, fs, r), a),
+				x.b.Implies(x.b.Not(x.fIsNaN(a)), x.b.Eq(x.b.Cmp(">=", r, x.b.IntBig(half)), x.b.App("fp.isNegative", "Bool", a))),
+				x.b.Eq(x.b.Eq(r, x.b.Int(0)), x.b.And(x.b.App("fp.isZero", "Bool", a), x.b.App("fp.isPositive", "Bool", a)))))
+		}
+		return &Val{Typ: it, T: r}, true
+	case "math.Float64frombits", "math.Float32frombits":
+		n := x.asTerm(args[0])
+		r := x.b.App(from, fs, n)
+		if !n.Bound {
+			x.assume(bc.reach, x.b.Implies(x.b.And(x.b.Cmp("<=", x.b.Int(0), n), x.b.Cmp("<", n, x.b.IntBig(top)), x.b.Not(x.fIsNaN(r))), x.b.Eq(x.b.App(to, "Int", r), n)))
+		}
+		return &Val{Typ: ft, T: r}, true
 	}
 	return nil, false
 }
